@@ -41,11 +41,11 @@ class C16Run(E2Run):
         self.ip = {n.config.hostname: str(n.network_interface[1].ip_address) for n in self.hosts}
         self.by_ip = {v: k for k, v in self.ip.items()}
 
-    def call_set_knobs(self, node: str, timeout: int, max_sessions: int):
+    def call_set_knobs(self, node: str, timeout: int, max_sessions: int, local_timeout: Optional[int] = None):
         """Documented public attributes of the user session manager (docs: user session timeouts / max sessions)."""
         usm = self.node(node).user_session_manager
         usm.remote_session_timeout_steps = timeout
-        usm.local_session_timeout_steps = timeout
+        usm.local_session_timeout_steps = timeout if local_timeout is None else local_timeout
         usm.max_remote_sessions = max_sessions
         self.knobs[node] = {"timeout": timeout, "max": max_sessions}
 
@@ -58,7 +58,7 @@ class C16Run(E2Run):
         for s in self.sessions:
             if s["state"] == "live":
                 to = self.knobs[s["server"]]["timeout"]
-                if self.t >= s["last"] + to + 1:
+                if self.t >= s["hi"] + to + 1:
                     s["state"] = "dead"
                     s["why"] = "time-out"
                     self.probe("c16_session_timed_out")
@@ -69,7 +69,7 @@ class C16Run(E2Run):
     def certainly_live_on(self, server: str) -> int:
         n = 0
         for s in self.sessions:
-            if s["server"] == server and s["state"] == "live" and self.t < s["last"] + self.knobs[server]["timeout"]:
+            if s["server"] == server and s["state"] == "live" and self.t < s["lo"] + self.knobs[server]["timeout"]:
                 n += 1
         return n
 
@@ -112,6 +112,13 @@ class C16Run(E2Run):
             for s in self.sessions:
                 if hn in (s["client"], s["server"]) and s["state"] == "live":
                     s["state"] = "unknown"
+        if kind == "remote_command" and meta.get("target"):
+            # the terminal finds "its connection to that address" among client- and server-side connections alike: a
+            # command or logoff issued towards a node that is logged in HERE goes out on that node's session and may
+            # end it (the far end rejects it and disconnects); such sessions are no longer certainly live
+            for s in self.sessions:
+                if s["server"] == hn and s["client"] == meta["target"] and s["state"] == "live":
+                    s["state"] = "unknown"
         um_on = node is not None and node.operating_state.name == "ON" and pre_power.get(hn) == "ON"
         acc = self.acct.get(hn, {})
         if kind == "add_user" and ok:
@@ -151,13 +158,20 @@ class C16Run(E2Run):
                     reasons.append(f"{self.certainly_live_on(srv)} live remote sessions, max {self.knobs[srv]['max']}")
                 if reasons:
                     raise Violation("C16", "login-succeeded-without-valid-conditions", f"remote login {hn} -> {srv} as {meta['user']}/{meta['password']} succeeded although: {', '.join(reasons)}", sig="login-succeeded-without-valid-conditions:" + reasons[0].split(",")[0][:30], detail={"model_account": a, "sessions": jsonable(self.sessions)})
-                self.sessions.append({"client": hn, "server": srv, "user": meta["user"], "last": self.t, "state": "live"})
+                # lo / hi: earliest and latest possible tick of the session's last activity
+                self.sessions.append({"client": hn, "server": srv, "user": meta["user"], "lo": self.t, "hi": self.t, "state": "live"})
             else:
                 self.probe("c16_remote_login_refused")
+                # the server may have authorised the login although the client never saw the answer (its terminal not
+                # accepting traffic): a half-open session may exist on the server
+                if a is not None and not a["disabled"] and a["password"] == meta["password"] and target_ok:
+                    self.sessions.append({"client": hn, "server": srv, "user": meta["user"], "lo": self.t, "hi": self.t, "state": "unknown", "why": "half-open"})
         elif kind == "remote_logoff" and ok:
             # the first connection the client holds for that address is ended; which one that is, is the client's
             # business: all sessions of the pair become 'unknown' except when there is exactly one candidate
-            cands = self.live_possible(hn, meta["target"])
+            # (the terminal searches client- and server-side connections alike, so sessions the target holds HERE are
+            # candidates too)
+            cands = self.live_possible(hn, meta["target"]) + self.live_possible(meta["target"], hn)
             if len(cands) == 1:
                 cands[0]["state"] = "dead"
                 cands[0]["why"] = "logoff"
@@ -177,9 +191,13 @@ class C16Run(E2Run):
                     dead = [s for s in self.sessions if s["client"] == hn and s["server"] == srv]
                     why = sorted({s.get("why", "?") for s in dead}) or ["never logged in"]
                     raise Violation("C16", "command-executed-without-live-session", f"remote command {hn} -> {srv} created {meta['probe']} on the target although no session of that pair can be live (sessions ended by: {why})", sig="command-executed-without-live-session:" + "+".join(why), detail={"sessions": jsonable(self.sessions), "t": self.t})
+                # the command travelled on ONE of the candidate sessions (the client's choice): only that one's
+                # inactivity timer was reset
                 for s in cands:
                     if s["state"] == "live":
-                        s["last"] = self.t
+                        s["hi"] = self.t
+                        if len(cands) == 1:
+                            s["lo"] = self.t
             else:
                 self.probe("c16_remote_command_no_effect")
         elif kind == "local_command":
@@ -207,7 +225,7 @@ class C16Run(E2Run):
         r = self.ops_rng
         n_ops = int(self.args.get("n_ops", 90))
         for n in self.hosts:
-            self.emit(["call", "set_knobs", {"node": n.config.hostname, "timeout": r.choice([2, 3, 4, 6]), "max_sessions": r.choice([1, 2, 3])}])
+            self.emit(["call", "set_knobs", {"node": n.config.hostname, "timeout": r.choice([2, 3, 4, 6]), "max_sessions": r.choice([1, 2, 3]), "local_timeout": r.choice([2, 4, 6, 30])}])
         pw_pool = ["pw", "secret", "admin", "changed", "bad"]
         for _ in range(n_ops):
             a = r.choice(self.hosts)
